@@ -61,6 +61,11 @@ func genScenario(p *PropDef, seed uint64, idx int, tier string) *Scenario {
 type WorkerViol struct {
 	Index int
 	V     Violation
+	// the worker's index sequence (lo+wi, +wn, ...): needed when a violation
+	// depends on state the LIBRARY kept from earlier scenarios in that process
+	Lo, Wi, Wn int
+	Bin        string
+	Env        []string
 }
 
 type WorkerResult struct {
@@ -144,7 +149,7 @@ func workerMain(args []string) int {
 		for _, v := range res.Viol {
 			if !violSeen[v.id()] && len(out.Viols) < 64 {
 				violSeen[v.id()] = true
-				out.Viols = append(out.Viols, WorkerViol{idx, v})
+				out.Viols = append(out.Viols, WorkerViol{Index: idx, V: v, Lo: lo, Wi: wi, Wn: wn})
 			}
 		}
 		if len(out.Samples) < 2 && res.Nontriv && len(sc.json()) < 6000 {
@@ -315,6 +320,8 @@ func runMain(propID, tier string) int {
 		res    *WorkerResult
 		stderr string
 		err    error
+		bin    string
+		env    []string
 	}
 	type phase struct {
 		bin    string
@@ -355,7 +362,7 @@ func runMain(propID, tier string) int {
 		for i := 0; i < n; i++ {
 			go func(i int) {
 				r, se, err := spawnWorker(ph.bin, ph.env, []string{propID, tier, strconv.FormatUint(seed, 10), strconv.Itoa(i), strconv.Itoa(n), strconv.Itoa(ph.lo), strconv.Itoa(ph.hi)})
-				pres[i] = wr{r, se, err}
+				pres[i] = wr{r, se, err, ph.bin, ph.env}
 				done <- i
 			}(i)
 		}
@@ -375,7 +382,7 @@ func runMain(propID, tier string) int {
 		if r.err != nil {
 			// a hang or a fatal runtime error inside library code
 			if idx, ok := parseHang(r.stderr); ok {
-				viols = append(viols, WorkerViol{idx, Violation{Prop: propID, Oracle: "hang", Key: "watchdog", Detail: "scenario did not finish within the watchdog"}})
+				viols = append(viols, WorkerViol{Index: idx, V: Violation{Prop: propID, Oracle: "hang", Key: "watchdog", Detail: "scenario did not finish within the watchdog"}})
 				continue
 			}
 			if idx, msg, ok := parseFatal(r.stderr); ok {
@@ -383,7 +390,7 @@ func runMain(propID, tier string) int {
 				if strings.HasPrefix(msg, "DATA RACE") {
 					or = "data_race"
 				}
-				viols = append(viols, WorkerViol{idx, Violation{Prop: propID, Oracle: or, Key: normMsg(msg), Detail: msg + "\n" + raceExcerpt(r.stderr)}})
+				viols = append(viols, WorkerViol{Index: idx, V: Violation{Prop: propID, Oracle: or, Key: normMsg(msg), Detail: msg + "\n" + raceExcerpt(r.stderr)}})
 				continue
 			}
 			fmt.Fprintf(os.Stderr, "worker %d failed: %v\n%s\n", i, r.err, tail(r.stderr, 4000))
@@ -401,31 +408,15 @@ func runMain(propID, tier string) int {
 		for k, v := range r.res.Stats {
 			agg.C[k] += v
 		}
-		viols = append(viols, r.res.Viols...)
+		for _, v := range r.res.Viols {
+			v.Bin, v.Env = r.bin, r.env
+			viols = append(viols, v)
+		}
 		samples = append(samples, r.res.Samples...)
 		for k, v := range r.res.DetHash {
 			det[k] = v
 		}
 	}
-	// determinism cross-check: re-execute the sampled scenarios in this process
-	detIdx := make([]int, 0, len(det))
-	for k := range det {
-		detIdx = append(detIdx, k)
-	}
-	sort.Ints(detIdx)
-	detChecked := 0
-	for _, idx := range detIdx {
-		if detChecked >= 400 || propID == "C18" {
-			break
-		}
-		res := runScenario(genScenario(p, seed, idx, tier))
-		if traceHash(res) != det[idx] {
-			fmt.Fprintf(os.Stderr, "NONDETERMINISM: scenario %d gave a different event log on re-execution\n", idx)
-			return 2
-		}
-		detChecked++
-	}
-
 	// violations: confirm, minimise, write replay files
 	sort.Slice(viols, func(i, j int) bool { return viols[i].Index < viols[j].Index })
 	known := loadKnown()
@@ -451,6 +442,29 @@ func runMain(propID, tier string) int {
 			break
 		}
 	}
+	// determinism cross-check: re-execute the sampled scenarios in this process
+	detIdx := make([]int, 0, len(det))
+	for k := range det {
+		detIdx = append(detIdx, k)
+	}
+	sort.Ints(detIdx)
+	detChecked := 0
+	for _, idx := range detIdx {
+		if detChecked >= 400 || propID == "C18" {
+			break
+		}
+		res := runScenario(genScenario(p, seed, idx, tier))
+		if traceHash(res) != det[idx] {
+			if nviol > 0 {
+				fmt.Printf("note: scenario %d gives a different event log when re-executed alone; with violations reported above this points at state the library keeps between calls\n", idx)
+				break
+			}
+			fmt.Fprintf(os.Stderr, "NONDETERMINISM: scenario %d gave a different event log on re-execution\n", idx)
+			return 2
+		}
+		detChecked++
+	}
+
 	wall := time.Since(start).Seconds()
 	writeEvidence(p, tier, seed, evals, nontriv, len(hashes), agg, samples, wall, nviol, detChecked)
 	fmt.Printf("ikesim: property=%s evaluations=%d nontrivial=%d distinct_nontrivial=%d violations=%d wall=%.1fs\n",
@@ -545,6 +559,10 @@ type ReplayFile struct {
 	OrigSteps int       `json:"original_steps"`
 	Scenario  *Scenario `json:"scenario"`
 	Trace     []string  `json:"event_trace"`
+	// Prelude: scenarios executed earlier in the same process, needed when the
+	// violation depends on state the library itself kept between them.
+	Prelude     []*Scenario `json:"prelude,omitempty"`
+	PreludeNote string      `json:"prelude_note,omitempty"`
 }
 
 func hasViolation(res *Result, id string) *Violation {
@@ -587,11 +605,21 @@ func reportViolation(p *PropDef, seed uint64, tier string, wv WorkerViol) string
 	res := runScenario(sc)
 	v := hasViolation(res, id)
 	if v == nil {
-		// must not happen: the worker saw it, this process does not
+		// The worker saw it, a fresh execution of the scenario alone does not: either the
+		// harness is nondeterministic (exit 2) or the LIBRARY kept state from earlier
+		// scenarios of that worker. Decide by replaying the worker's sequence in a fresh process.
+		if pre := reproduceWithPrelude(p, seed, tier, wv, id); pre != nil {
+			rf.Scenario = sc
+			rf.Prelude = pre
+			rf.PreludeNote = "the violation appears only after the prelude scenarios ran in the same process: the library keeps mutable state outside the objects passed in"
+			rf.Detail += "\n(depends on library state left behind by earlier operations in the same process; replay runs the prelude first)"
+			writeJSON(path, rf)
+			return path
+		}
 		rf.Scenario = sc
-		rf.Detail += "\n(NOT REPRODUCED in the parent process: harness nondeterminism)"
+		rf.Detail += "\n(NOT REPRODUCED: harness nondeterminism)"
 		writeJSON(path, rf)
-		fmt.Fprintf(os.Stderr, "harness error: violation %s of scenario %d did not reproduce in the parent\n", id, wv.Index)
+		fmt.Fprintf(os.Stderr, "harness error: violation %s of scenario %d did not reproduce, neither alone nor after the worker's earlier scenarios\n", id, wv.Index)
 		os.Exit(2)
 	}
 	min := shrink(sc, id)
@@ -611,6 +639,97 @@ func reportViolation(p *PropDef, seed uint64, tier string, wv WorkerViol) string
 	rf.Trace = res.Trace
 	writeJSON(path, rf)
 	return path
+}
+
+// seqFails runs the given scenario indices, in order, in a FRESH process and
+// reports whether the last one shows violation id.
+func seqFails(p *PropDef, seed uint64, tier string, wv WorkerViol, id string, idxs []int) bool {
+	bin := wv.Bin
+	if bin == "" {
+		bin, _ = os.Executable()
+	}
+	strs := make([]string, len(idxs))
+	for i, v := range idxs {
+		strs[i] = strconv.Itoa(v)
+	}
+	cmd := exec.Command(bin, "seqcheck", p.ID, tier, strconv.FormatUint(seed, 10), id, strings.Join(strs, ","))
+	cmd.Env = append(os.Environ(), wv.Env...)
+	err := cmd.Run()
+	if ee, ok := err.(*exec.ExitError); ok {
+		return ee.ExitCode() == 1
+	}
+	return false
+}
+
+func reproduceWithPrelude(p *PropDef, seed uint64, tier string, wv WorkerViol, id string) []*Scenario {
+	if wv.Wn <= 0 {
+		return nil
+	}
+	var pre []int
+	for i := wv.Lo + wv.Wi; i < wv.Index; i += wv.Wn {
+		pre = append(pre, i)
+	}
+	if len(pre) == 0 || !seqFails(p, seed, tier, wv, id, append(append([]int{}, pre...), wv.Index)) {
+		return nil
+	}
+	// ddmin over the prelude, each trial in a fresh process
+	budget := 80
+	try := func(c []int) bool {
+		if budget <= 0 {
+			return false
+		}
+		budget--
+		return seqFails(p, seed, tier, wv, id, append(append([]int{}, c...), wv.Index))
+	}
+	n := 2
+	for len(pre) >= 2 {
+		chunk := (len(pre) + n - 1) / n
+		reduced := false
+		// try keeping only one chunk (fast path when a single scenario suffices), then dropping one
+		for i := 0; i < len(pre) && !reduced; i += chunk {
+			end := min(i+chunk, len(pre))
+			if keep := pre[i:end]; len(keep) < len(pre) && try(keep) {
+				pre, n, reduced = append([]int{}, keep...), 2, true
+			}
+		}
+		for i := 0; i < len(pre) && !reduced; i += chunk {
+			end := min(i+chunk, len(pre))
+			cand := append(append([]int{}, pre[:i]...), pre[end:]...)
+			if len(cand) > 0 && try(cand) {
+				pre, n, reduced = cand, max(n-1, 2), true
+			}
+		}
+		if !reduced {
+			if n >= len(pre) || budget <= 0 {
+				break
+			}
+			n = min(n*2, len(pre))
+		}
+	}
+	var out []*Scenario
+	for _, i := range pre {
+		out = append(out, genScenario(p, seed, i, tier))
+	}
+	return out
+}
+
+func seqcheckMain(args []string) int {
+	if len(args) < 5 {
+		return 2
+	}
+	p := props[args[0]]
+	var seed uint64
+	fmt.Sscan(args[2], &seed)
+	installSimRand()
+	parts := strings.Split(args[4], ",")
+	for k, s := range parts {
+		idx, _ := strconv.Atoi(s)
+		res := runScenario(genScenario(p, seed, idx, args[1]))
+		if k == len(parts)-1 && hasViolation(res, args[3]) != nil {
+			return 1
+		}
+	}
+	return 0
 }
 
 func sanitize(s string) string {
@@ -795,6 +914,10 @@ func replayMain(path string) int {
 		fmt.Println("replay: no race / fatal error on this run")
 		return 0
 	}
+	for i, pre := range rf.Prelude {
+		pr := runScenario(pre)
+		fmt.Printf("  prelude scenario %d (index %d): %d events\n", i, pre.Index, pr.Events)
+	}
 	res := runScenario(rf.Scenario)
 	for _, t := range res.Trace {
 		fmt.Println("  event:", t)
@@ -870,6 +993,9 @@ func writeEvidence(p *PropDef, tier string, seed uint64, evals, nontriv, distinc
 		WallS: wall, Violations: nviol,
 	}
 	dir := filepath.Join(verifDir(), "evidence")
+	if d := os.Getenv("VERIF_EVIDENCE_DIR"); d != "" {
+		dir = d
+	}
 	os.MkdirAll(dir, 0o755)
 	writeJSON(filepath.Join(dir, p.ID+".json"), ev)
 }
